@@ -461,6 +461,34 @@ pub fn family_cond(_tier: Tier) -> Vec<PProblem> {
             out.push(p);
         }
     }
+    // reloads with and without a shared resource in one shift, in every list order, and two different resources: the stock of a
+    // resource limits exactly the reloads which name it
+    {
+        let free = |tag: &str| PReload { loc: 0, duration: 4., times: vec![], tag: Some(tag.into()), resource_id: None };
+        let bound = |tag: &str, res: &str| PReload { loc: 0, duration: 4., times: vec![], tag: Some(tag.into()), resource_id: Some(res.into()) };
+        let lists: Vec<(&str, Vec<PReload>)> = vec![
+            ("free-stock", vec![free("f1"), bound("s1", "stock")]),
+            ("stock-free", vec![bound("s1", "stock"), free("f1")]),
+            ("free-stock-free", vec![free("f1"), bound("s1", "stock"), free("f2")]),
+            ("free-free-stock", vec![free("f1"), free("f2"), bound("s1", "stock")]),
+            ("stock-other", vec![bound("s1", "stock"), bound("o1", "other")]),
+            ("other-free-stock", vec![bound("o1", "other"), free("f1"), bound("s1", "stock")]),
+        ];
+        for (name, reloads) in lists {
+            for ids in [1usize, 2] {
+                for stock in [1i64, 2] {
+                    let mut sh = shift(ShiftKind::Closed);
+                    sh.reloads = reloads.clone();
+                    let mut p = base(format!("cond/resource-mixed/{name}/v{ids}/stock{stock}"), deliveries(6), vec![vehicle_type("v", ids, &[2], vec![sh])]);
+                    p.resources = vec![("stock".into(), vec![stock])];
+                    if reloads.iter().any(|r| r.resource_id.as_deref() == Some("other")) {
+                        p.resources.push(("other".into(), vec![3 - stock]));
+                    }
+                    out.push(p);
+                }
+            }
+        }
+    }
     // optional breaks with / without location
     for loc in [None, Some(2usize)] {
         for window in [(30., 60.), (0., 10.), (500., 600.)] {
